@@ -1531,6 +1531,28 @@ def p_act( ctx ):
             res.ok( csrc, term_tests[0].stmt, 'engine reset after a complete frame' )
         else:
             res.bad( csrc, term_tests[0].stmt, 'if self.frame.terminal', 'the engine must be reset when a frame completes' )
+    # ... and over UDP whatever follows the frame in its datagram ends with it: left in the source, those octets are taken for the beginning of
+    # the NEXT response ( the receive is skipped while the source holds anything ).  Accepted forms, under a test that mentions the transport and
+    # after the engine loop: the source is run out ( for ... in self.source ), replaced ( self.source = ... ), or leftovers are refused ( assert )
+    SRCATTR = dotted( rkw.get( 'source' )) or 'self.source'
+    def drops_rest( st ):
+        for x_ in ast.walk( st ):
+            if isinstance( x_, ( ast.For, ast.While )) and SRCATTR in dotted_in( x_.iter if isinstance( x_, ast.For ) else x_.test ):
+                return True
+            if isinstance( x_, ast.Assign ) and any( dotted( t_ ) == SRCATTR for t_ in x_.targets ):
+                return True
+            if isinstance( x_, ast.Assert ) and SRCATTR + '.peek' in { call_name( c_ ) for c_ in ast.walk( x_.test ) if isinstance( c_, ast.Call ) }:
+                return True
+            if isinstance( x_, ast.If ) and any( isinstance( r_, ast.Raise ) for r_ in x_.body ) and SRCATTR + '.peek' in { call_name( c_ ) for c_ in ast.walk( x_.test ) if isinstance( c_, ast.Call ) }:
+                return True
+        return False
+    after_ = [ st for st in ast.walk( nx ) if isinstance( st, ( ast.If, ast.Assert )) and 'udp' in txt( st.test ).lower()
+               and st.lineno > tries[0].lineno and not any( a_ is e_.stmt for e_ in eloops for a_ in csrc.ancestors( st )) and drops_rest( st ) ]
+    if after_:
+        res.ok( csrc, after_[0], 'client.__next__: over UDP the octets that follow a complete frame in its datagram are discarded ( or refused ) with it' )
+    else:
+        res.bad( csrc, term_tests[0].stmt if term_tests else nx, 'client.__next__ keeps what follows a complete frame in the source whatever the transport',
+                 'over UDP the rest of a reply datagram ( padding, a too-small header.length ) is parsed as the start of the next response: the receive is skipped, and the next, intact reply is refused as incomplete or a stray frame is delivered in its place' )
     # EOF between frames ends the iteration; EOF inside a frame does not
     stop = [ n for n in ast.walk( nx ) if isinstance( n, ast.Raise ) and dotted( n.exc ) == 'StopIteration' ]
     okstop = stop and all( isinstance( csrc.parent.get( s ), ast.If ) and pmatch( csrc.parent.get( s ).test, 'self.engine is None' ) for s in stop )
@@ -2151,6 +2173,37 @@ def e_contain( ctx ):
     return res
 
 
+@rule( 'K-LINKFMT', props=( 'C14', 'C15' ), floor=1 )
+def k_linkfmt( ctx ):
+    """the link of a port segment is a number OR an address string ( '10.1.2.3' ): wherever the server modules put one into a text with the
+    % operator - eagerly, i.e. evaluated on every request whatever the log level - the conversion is one that takes both ( %s / %r ), never
+    %d / %i / %x: those raise TypeError for an address link, inside the handler of a Forward Open / Unconnected Send whose first hop is
+    an IP address - the request is answered with an error status"""
+    import re as _re
+    res = Result( 'K-LINKFMT' )
+    n = 0
+    for rel in ( 'server/enip/device.py', 'server/enip/ucmm.py', 'server/enip/logix.py', 'server/enip/parser.py' ):
+        src = ctx.src( rel )
+        for b in ast.walk( src.tree ):
+            if not ( isinstance( b, ast.BinOp ) and isinstance( b.op, ast.Mod ) and isinstance( b.left, ast.Constant ) and isinstance( b.left.value, str )):
+                continue
+            args = b.right.elts if isinstance( b.right, ast.Tuple ) else [ b.right ]
+            convs = [ m.group( 1 ) for m in _re.finditer( r'%[-+ #0]*\d*(?:\.\d+)?([a-zA-Z%])', b.left.value ) if m.group( 1 ) != '%' ]
+            if len( convs ) != len( args ):
+                continue
+            for cv, a in zip( convs, args ):
+                t = txt( a )
+                if t.endswith( '.link' ) or t.endswith( "['link']" ) or t.endswith( '["link"]' ):
+                    n += 1
+                    if cv in 'sr':
+                        res.ok( src, b, 'a link is put into text with %%%s' % cv )
+                    else:
+                        res.bad( src, b, 'a port segment link is formatted with %%%s ( %s )' % ( cv, norm_text( a )), 'the link of a port segment may be an address string: the conversion raises TypeError for it - eagerly, on every request with such a first hop: a Forward Open routed over an IP hop is refused' )
+    if n == 0:
+        res.ok( ctx.src( 'server/enip/device.py' ), None, 'no eager %-formatting of a port segment link in the server modules ( nothing to decide )' )
+    return res
+
+
 @rule( 'W-PRINT', props=( 'C05', ), floor=2 )
 def w_print( ctx ):
     """main(): the --print wrapper of Attribute ( Attribute_print ) stores first and formats afterwards, so whatever it formats must be total for
@@ -2325,10 +2378,45 @@ def d_refuse( ctx ):
     # **-unpacking into str.format ) - never handed to a function, which could canonicalise it in place ( device.port_link rewrites the dict
     # it is given: a string link '10' becomes the integer 10 and then equals a configured 2/10 )
     PURE = ( 'len', 'bool', 'str', 'repr', 'isinstance', 'list', 'tuple', 'dict', 'enumerate', 'zip', 'sorted', 'all', 'any' )
+    # ( one callee is read: EPATH.produce - <EPATH class>.produce( ... ) of the parser module - is accepted while its body stores into nothing
+    # reached from its parameters: no subscript / attribute store, no mutating method, parameters handed on only to the PURE builtins )
+    def produce_is_pure():
+        psrc = ctx.src( 'server/enip/parser.py' )
+        pf = psrc.get( 'EPATH.produce' )
+        tainted = { a.arg for a in pf.args.args } - { 'cls', 'self' }
+        for _ in range( 4 ):
+            for n_ in ast.walk( pf ):
+                if isinstance( n_, ast.Assign ) and any( isinstance( x_, ast.Name ) and x_.id in tainted for x_ in ast.walk( n_.value )):
+                    tainted |= { t_.id for t in n_.targets for t_ in ast.walk( t ) if isinstance( t_, ast.Name ) }
+                if isinstance( n_, ast.For ) and any( isinstance( x_, ast.Name ) and x_.id in tainted for x_ in ast.walk( n_.iter )):
+                    tainted |= { t_.id for t_ in ast.walk( n_.target ) if isinstance( t_, ast.Name ) }
+        for n_ in ast.walk( pf ):
+            if isinstance( n_, ( ast.Subscript, ast.Attribute )) and isinstance( n_.ctx, ( ast.Store, ast.Del )):
+                return False
+            if isinstance( n_, ast.Call ) and isinstance( n_.func, ast.Attribute ) and n_.func.attr in (
+                    'update', 'pop', 'popitem', 'setdefault', 'clear', 'append', 'extend', 'insert', 'remove', 'sort', 'reverse', '__setitem__', '__delitem__' ):
+                return False
+            if isinstance( n_, ast.Call ) and not isinstance( n_.func, ast.Attribute ) and call_name( n_ ) not in PURE + ( 'hasattr', 'getattr', 'type', 'int' ) \
+               and any( isinstance( a_, ast.Name ) and a_.id in tainted for a_ in n_.args ):
+                return False
+        return True
+    def epath_classes():
+        psrc = ctx.src( 'server/enip/parser.py' )
+        out, grew = { 'EPATH' }, True
+        while grew:
+            grew = False
+            for c_ in psrc.tree.body:
+                if isinstance( c_, ast.ClassDef ) and c_.name not in out and any( dotted( b_ ) in out for b_ in c_.bases ) \
+                   and not any( isinstance( m_, ast.FunctionDef ) and m_.name == 'produce' for m_ in c_.body ):
+                    out.add( c_.name ); grew = True
+        return out
     if RP and acc:
         handed = []
         for c_ in ast.walk( fn ):
             if not isinstance( c_, ast.Call ) or call_name( c_ ).split( '.' )[-1] in PURE or call_name( c_ ).startswith( 'log.' ):
+                continue
+            cn_ = call_name( c_ ).split( '.' )
+            if len( cn_ ) == 3 and cn_[0] == 'parser' and cn_[2] == 'produce' and cn_[1] in epath_classes() and produce_is_pure():
                 continue
             if any( isinstance( x_, ast.Name ) and x_.id == RP for a_ in list( c_.args ) + [ k_.value for k_ in c_.keywords if k_.arg is not None ] for x_ in ast.walk( a_ )):
                 if getattr( c_, 'lineno', 0 ) < acc[0].stmt.lineno:
@@ -2338,6 +2426,25 @@ def d_refuse( ctx ):
                      'a callee may rewrite the segment it is given (port_link canonicalises in place): the acceptance test then compares a modified request, so a path that differs in link kind is accepted and the tag is accessed' )
         else:
             res.ok( src, acc[0].stmt, 'the request route path is only read before the acceptance test (never passed to a callee)' )
+    # ... and ALL of it: the EPATH parser ends the segment list at a segment type it does not know ( the rest of the .size words are skipped by the
+    # limit ), so the list alone is a prefix of what was sent.  A test that consults the announced size ( <request>.route_path.size ) dominates the
+    # dispatch wherever a personality is configured
+    if RP and acc and guard:
+        def reads_size( e_ ):
+            for x_ in ast.walk( e_ ):
+                if isinstance( x_, ast.Constant ) and isinstance( x_.value, str ) and x_.value.endswith( 'route_path.size' ):
+                    return True
+                if isinstance( x_, ast.Attribute ) and dotted( x_ ) and dotted( x_ ).endswith( 'route_path.size' ):
+                    return True
+            return False
+        sized = [ n for n in cfg.nodes if n.kind == 'stmt' and isinstance( n.stmt, ast.Assert ) and reads_size( n.stmt.test ) ] + \
+                [ n for n in cfg.nodes if n.kind == 'test' and isinstance( n.stmt, ast.If ) and reads_size( n.expr ) and any( isinstance( r_, ast.Raise ) for r_ in n.stmt.body ) ]
+        tsucc = [ m for g_ in guard for m, l in cfg.succ[g_] if l == 'true' ]
+        if sized and all( cfg.must_pass( t, d, sized, correlated=False ) for t in tsucc for d in disp ):
+            res.ok( src, sized[0].stmt, 'with a configured personality the announced size of the route path is tested against what was recognised, ahead of the dispatch' )
+        else:
+            res.bad( src, acc[0].stmt, 'the acceptance test judges the recognised segments only; the announced route_path.size is never consulted',
+                     'a route path that holds ( or is ) a segment the EPATH parser does not decode - an electronic key, say - arrives as a shorter or empty list: a simple device then serves a routed request, and a routing device one whose path only begins like its own' )
     # ... and it is the path AS RECEIVED: the only binding of the name that reaches the acceptance test is the read from the request - a
     # re-binding ahead of the test ( canonicalised segments, the leading segment sliced off for routing ) makes the test judge another path
     if RP and acc:
@@ -2408,6 +2515,21 @@ def k_routekey( ctx ):
             res.bad( src, a, 'UCMM.__init__ stores a route under %s, the lookup uses %s.format( **<parsed segment> )' % ( norm_text( key )[:60], sorted( rfmts )),
                      "a route whose configured text is not the canonical spelling ( '3/0::1', '2/2001:DB8::5' ) is never found: the request is judged by the local route-path filter ( refused ) instead of being forwarded" )
     res.ok( src, gets[0], 'the leading request segment is looked up with %s.format( **segment )' % sorted( rfmts ))
+    # ---- a range key "1/1-15" stands for every link from its first to its LAST, inclusive: port_link_expand iterates range( lo, hi + 1 ).
+    # Exclusive, the last link of every range gets no route: a request for it is judged locally ( refused, or served from the gateway's own
+    # tags - the wrong device )
+    pe = src.get( 'port_link_expand' )
+    rng = [ f for f in ast.walk( pe ) if isinstance( f, ast.For ) and is_call_to( f.iter, 'range' ) and len( f.iter.args ) == 2 ]
+    if not rng:
+        raise AnalysisError( 'port_link_expand: the loop over range( lo, hi + 1 ) not found' )
+    bounds = [ a for a in ast.walk( pe ) if isinstance( a, ast.Assign ) and isinstance( a.targets[0], ast.Tuple ) and len( a.targets[0].elts ) == 2 and 'split' in txt( a.value ) and "'-'" in txt( a.value ) ]
+    LO, HI = ( dotted( e ) for e in bounds[0].targets[0].elts ) if bounds else ( None, None )
+    a0, a1 = rng[0].iter.args
+    if LO and dotted( a0 ) == LO and ( pmatch( a1, '%s + 1' % HI ) is not None or pmatch( a1, '1 + %s' % HI ) is not None ):
+        res.ok( src, rng[0], 'a range key "p/lo-hi" is expanded to every link lo .. hi, inclusive' )
+    else:
+        res.bad( src, rng[0], 'port_link_expand iterates %s' % norm_text( rng[0].iter ), 'the last link of a range key ( "1/1-15": link 15 ) gets no route entry: a request addressed to it is not forwarded but judged - refused, or served - locally' )
+
     return res
 
 
@@ -2957,6 +3079,69 @@ def s_lone( ctx ):
         else:
             res.bad( src, c, 'Connection_Manager.request: a failure of the lone request in the target object is handed on ( raise )',
                      'a request with an unsupported service code, or one the target\'s parser rejects, fails the whole EtherNet/IP request when sent alone ( encapsulation status 0x08, the session ends, pipelined requests behind it are lost ); the same request inside a Multiple Service Packet is answered service | 0x80, status 0x08 and its neighbours run', func='Connection_Manager.request' )
+    # the stand-ins ( what is kept of a request that could not be parsed: its octets and service code ) of the lone request and of the bundle
+    # member are made alike, and answered by the same Object:
+    #  - each carries a path, an empty one: Object.request takes a request WITHOUT a path for one addressed to itself, and a stand-in reduced to
+    #    service code 0x01 is then served - Get Attributes All of the Message Router, status 0 and every tag's value - instead of refused
+    standins = []
+    for qn in ( 'Connection_Manager.request', 'state_multiple_service.terminate.closure' ):
+        f_ = src.get( qn )
+        for a_ in ast.walk( f_ ):
+            if isinstance( a_, ast.Assign ) and ( dotted( a_.targets[0] ) or '' ).endswith( '.service' ) and isinstance( a_.value, ast.BinOp ) and isinstance( a_.value.op, ast.BitAnd ) \
+               and try_fold( a_.value.right ) == 0x7F and any( isinstance( h_, ast.ExceptHandler ) for h_ in src.ancestors( a_ )):
+                X = dotted( a_.targets[0] ).rsplit( '.', 1 )[0]
+                h_ = [ h_ for h_ in src.ancestors( a_ ) if isinstance( h_, ast.ExceptHandler ) ][0]
+                ctors = [ c_ for c_ in ast.walk( h_ ) if isinstance( c_, ast.Assign ) and dotted( c_.targets[0] ) == X and isinstance( c_.value, ast.Call ) and c_.lineno <= a_.lineno ]
+                standins.append(( qn, f_, a_, X, h_, ctors[-1] if ctors else None ))
+    if len( standins ) < 2:
+        raise AnalysisError( 'S-LONE: the stand-ins ( <x>.service = <octet> & 0x7F inside an except handler ) of the lone request and the bundle member not found' )
+    for qn, f_, a_, X, h_, ctor in standins:
+        has_path = ctor is not None and ( any( k_.arg == 'path' for k_ in ctor.value.keywords )
+                                          or any( isinstance( b_, ast.Assign ) and dotted( b_.targets[0] ) == X + '.path' for b_ in ast.walk( h_ )))
+        copies = ctor is not None and not ctor.value.keywords and ctor.value.args	# dotdict( <parsed request> ): whatever was parsed before the failure
+        if has_path and not copies:
+            res.ok( src, ctor, '%s: the stand-in of an unparsable request carries a path ( an empty one )' % qn )
+        elif copies:
+            res.bad( src, ctor, '%s: the stand-in of an unparsable request is a copy of what was parsed before the failure' % qn,
+                     'a request cut off inside its data still carries path, type and the elements decoded so far: a truncated Write Tag Fragmented is executed with them and answered with success', func=qn )
+        else:
+            res.bad( src, ctor or a_, '%s: the stand-in of an unparsable request has no path' % qn,
+                     'Object.request takes a request without a path for one addressed to the answering Object itself: an unparsable Get Attributes All ( 01 03 91 ) is served - status 0 and the octets of every attribute, all tag values - where every other damaged request is refused', func=qn )
+    #  - the lone stand-in is answered by the Object that answers bundle members, the Message Router ( not by whatever Object the damaged
+    #    request's path named: Identity does not know Read Tag, and answers 0x08 where the bundle answers 0x05 )
+    cm = src.get( 'Connection_Manager.request' )
+    lone = [ t for t in standins if t[0] == 'Connection_Manager.request' ]
+    for qn, f_, a_, X, h_, ctor in lone[:1]:
+        outer = [ h2 for h2 in src.ancestors( h_ ) if isinstance( h2, ast.ExceptHandler ) ]
+        scope = outer[0] if outer else h_
+        rcalls = [ c_ for c_ in ast.walk( scope ) if isinstance( c_, ast.Call ) and isinstance( c_.func, ast.Attribute ) and c_.func.attr == 'request' and c_.args and dotted( c_.args[0] ) == X ]
+        if not rcalls:
+            raise AnalysisError( 'S-LONE: the call that answers the lone stand-in ( <object>.request( %s ... )) not found' % X )
+        for c_ in rcalls:
+            R = dotted( c_.func.value )
+            binds = [ b_ for b_ in ast.walk( cm ) if isinstance( b_, ast.Assign ) and dotted( b_.targets[0] ) == R ]
+            if binds and all( any( is_call_to( l_, 'lookup' ) and l_.args and ( dotted( l_.args[0] ) or '' ).endswith( 'Message_Router.class_id' ) for l_ in ast.walk( b_.value )) for b_ in binds ):
+                res.ok( src, c_, 'the lone stand-in is answered by the Message Router ( lookup( Message_Router.class_id ... )), as a bundle member is' )
+            else:
+                res.bad( src, c_, 'the lone stand-in is answered by %s, not by the Message Router' % R,
+                         'a damaged request addressed to another Object ( Identity, TCPIP ) is answered 0x08 alone - that Object does not know the service - and 0x05 inside a Multiple Service Packet, where the Message Router answers', func=qn )
+    #  - an error reply to Read Tag Fragmented ( reply service 0xD2 ) keeps an extended status word: `D2 00 <status> 00` is, octet for octet, a
+    #    failed Unconnected Send ( parser.unconnected_send ), and the client raises where it should report one refused read.  Each handler that
+    #    strips status_ext and renders an error reply supplies one again under a test on that service
+    for qn in ( 'Connection_Manager.request', 'Message_Router.request' ):
+        f_ = src.get( qn )
+        for h_ in [ h_ for h_ in ast.walk( f_ ) if isinstance( h_, ast.ExceptHandler ) ]:
+            strips = [ c_ for b_ in h_.body for c_ in ast.walk( b_ ) if isinstance( c_, ast.Call ) and isinstance( c_.func, ast.Attribute ) and c_.func.attr == 'pop' and c_.args
+                       and isinstance( c_.args[0], ast.Constant ) and c_.args[0].value == 'status_ext' ]
+            if not strips or any( isinstance( b_, ast.Try ) for b_ in h_.body if any( c_ in list( ast.walk( b_ )) for c_ in strips )):
+                continue
+            again = [ i_ for i_ in h_.body if isinstance( i_, ast.If ) and any( try_fold( k_ ) in ( 0xD2, 0x52 ) for k_ in ast.walk( i_.test ) if isinstance( k_, ast.Constant ))
+                      and any( isinstance( b_, ast.Assign ) and ( dotted( b_.targets[0] ) or '' ).endswith( '.status_ext' ) for b_ in ast.walk( i_ )) ]
+            if again:
+                res.ok( src, again[0], '%s: the error reply to Read Tag Fragmented is given an extended status word again' % qn )
+            else:
+                res.bad( src, strips[0], '%s: the error reply is rendered without extended status whatever the service' % qn,
+                         'D2 00 08 00 parses as a failed Unconnected Send: the client raises on a refused lone Read Tag Fragmented and yields nothing for the operations behind it, where the bundled run reports status 8 for that one', func=qn )
     return res
 
 
@@ -3164,6 +3349,10 @@ def k_keypass( ctx ):
 
 # ---------------------------------------------------------------------------------------- C06/C13: P-ROUTE (shared route connection of the UCMM)
 
+def csrc_enclosing_loop( src, node ):
+    return src.enclosing( node, ( ast.While, ast.For )) is not None
+
+
 @rule( 'P-ROUTE', props=( 'C06', 'C13' ), floor=3 )
 def p_route( ctx ):
     """UCMM.request, routed Unconnected Send: the connection to a route target is shared by all sessions and replies are not matched by
@@ -3228,6 +3417,15 @@ def p_route( ctx ):
         res.ok( src, closes[0], 'the handler closes the connection it used and forgets the table entry only if it is still that connection' )
     elif closes:
         res.bad( src, closes[0], 'UCMM.request: the handler closes / forgets whatever connection the table holds now', 'when the entry was replaced meanwhile the healthy replacement is closed and the failed connection stays in use: a session waiting on it is answered with the reply still in flight' )
+    # (4) a session that obtains the connection only after its previous holder failed and retired it is not failed for that: inside the
+    #     `with`, "is this still the registered connection?" leads back to the look-up ( continue in a loop ), not to an assertion
+    stale = [ n_ for w_ in withs for n_ in ast.walk( w_ ) if isinstance( n_, ( ast.If, ast.Assert )) and any( isinstance( x_, ast.Compare ) and any( isinstance( o_, ( ast.Is, ast.IsNot )) for o_ in x_.ops ) and 'route_conn' in txt( x_ ) for x_ in ast.walk( n_.test )) ]
+    if stale and all( isinstance( n_, ast.If ) and any( isinstance( b_, ast.Continue ) for b_ in n_.body ) and csrc_enclosing_loop( src, n_ ) for n_ in stale ):
+        res.ok( src, stale[0], 'a connection found retired after waiting for it is replaced by a fresh one ( the request is not failed for another session\'s time-out )' )
+    elif stale:
+        res.bad( src, stale[0], 'UCMM.request fails a request because the route connection it waited for was retired meanwhile', 'the session that queued behind a request that timed out is answered with an error ( and terminated ) for a failure that was not its own: with the requests one after the other it is served' )
+    else:
+        res.bad( src, withs[0] if withs else aw, 'UCMM.request never asks whether the connection it waited for is still the registered one', 'a session blocked on the connection\'s lock while its holder failed goes on to use the closed ( or still busy ) connection' )
     if h.type is None or dotted( h.type ) in ( 'Exception', 'BaseException' ):
         res.ok( src, h, 'any failure of the routed exchange deletes the shared route connection and re-raises' )
     else:
